@@ -868,4 +868,96 @@ def mon_c07(cfg, steps):
     return out
 
 
-MONITORS = {"C04": mon_c04, "C15": mon_c15, "C03": mon_c03, "C08": mon_c08, "C10": mon_c10, "C11": mon_c11, "C12": mon_c12, "C05": mon_c05, "C06": mon_c06, "C17": mon_c17, "C13": mon_c13, "C14": mon_c14, "C09": mon_c09, "C07": mon_c07}
+# ---------------- C18 ----------------
+def semver_tuple(v):
+    m = _re.fullmatch(r"(0|[1-9][0-9]*)\.(0|[1-9][0-9]*)\.(0|[1-9][0-9]*)", v)
+    return tuple(int(x) for x in m.groups()) if m else None
+
+
+def mg_view(s):
+    d = {"pkts": {}, "lpkts": {}, "waits": {}, "lwaits": {}, "cfg": [], "rest": None, "ver": None, "changed": None}
+    for o in s.lines:
+        if o[0] == "mg.ver":
+            d["ver"] = (unhex(o[1]).decode("utf-8", "replace"), unhex(o[2]).decode("utf-8", "replace"))
+        elif o[0] == "mg.lpkt":
+            d["lpkts"][int(o[1])] = (int(o[2]), int(o[3]), o[4])
+        elif o[0] == "mg.pkt":
+            dn, am = o[3].split(":")
+            d["pkts"][int(o[1])] = (int(o[2]), unhex(dn).decode(), int(am), unhex(o[4]).decode(), o[5])
+        elif o[0] == "mg.lwait":
+            d["lwaits"][int(o[1])] = int(o[2])
+        elif o[0] == "mg.wait":
+            dn, am = o[2].split(":")
+            d["waits"][int(o[1])] = (unhex(dn).decode(), int(am), unhex(o[3]).decode())
+        elif o[0].startswith("mg.cfg"):
+            d["cfg"].append(o)
+        elif o[0] == "mg.rest":
+            d["rest"] = o[1:]
+        elif o[0] == "mg.changed":
+            d["changed"] = [unhex(x).decode() for x in o[1][1:-1].split(",") if x]
+    return d
+
+
+def mon_c18(cfg, steps):
+    out = []
+    prev = None; prev_snap = None
+    FROM = {"v0418": "0.4.18", "v0420": "0.4.20", "v100": "1.0.0"}
+    stack = []
+    for s in steps:
+        t = s.optoks
+        if t[0].startswith("leg"):
+            prev = mg_view(s); continue
+        if t[0] != "mig":
+            continue
+        cur = mg_view(s)
+        stored = prev["ver"] if prev else None
+        if s.note and s.note[0] == "setver":
+            stored = (unhex(s.note[1]).decode("utf-8", "replace"), unhex(s.note[2]).decode("utf-8", "replace"))
+        if s.res == "ok":
+            if stored is None or stored[0] != "staking":
+                out.append({"step": s.idx, "what": "migration succeeded for stored contract name %r" % (stored and stored[0])})
+            if stored and stored[1] != FROM[t[1]]:
+                out.append({"step": s.idx, "what": "migration path %s succeeded from stored version %r (its source version is %s)" % (t[1], stored[1], FROM[t[1]])})
+            if stored and (semver_tuple(stored[1]) is None or semver_tuple(stored[1]) >= (1, 1, 0)):
+                out.append({"step": s.idx, "what": "migration succeeded from version %r, not strictly older than 1.1.0" % stored[1]})
+            if cur["ver"] != ("staking", "1.1.0"):
+                out.append({"step": s.idx, "what": "after migration the recorded version is %r" % (cur["ver"],)})
+            if prev and cur["rest"] != prev["rest"]:
+                out.append({"step": s.idx, "what": "migration altered unrelated records"})
+            if t[1] == "v100" and prev:
+                dn = None; staker = None
+                for o in cur["cfg"]:
+                    if o[0] == "mg.cfg.protocol":
+                        dn = unhex(o[3]).decode()
+                    if o[0] == "mg.cfg.native":
+                        staker = unhex(o[6]).decode()
+                if prev["cfg"] != cur["cfg"]:
+                    out.append({"step": s.idx, "what": "1.0.0 -> 1.1.0 altered the configuration"})
+                exp = {k: (v[0], dn, v[1], staker, v[2]) for k, v in prev["lpkts"].items()}
+                if cur["pkts"] != exp:
+                    lost = [k for k in exp if cur["pkts"].get(k) != exp[k]]
+                    out.append({"step": s.idx, "what": "1.0.0 -> 1.1.0: tracked transfers %r were not preserved with key, sequence, amount, status (+ denom %s, receiver %s): %r vs %r" % (lost, dn, staker, [cur["pkts"].get(k) for k in lost][:3], [exp[k] for k in lost][:3])})
+                expw = {k: (dn, v, staker) for k, v in prev["lwaits"].items()}
+                if cur["waits"] != expw:
+                    out.append({"step": s.idx, "what": "1.0.0 -> 1.1.0: pending replies not preserved"})
+                extra = set(cur["changed"] or []) - {"contract_info", "inflight", "ibc_waiting_for_reply"}
+                if extra:
+                    out.append({"step": s.idx, "what": "1.0.0 -> 1.1.0 rewrote records %r" % sorted(extra)})
+            else:
+                if prev and (cur["lpkts"] != prev["lpkts"] or cur["lwaits"] != prev["lwaits"]):
+                    out.append({"step": s.idx, "what": "%s altered the tracked transfers" % t[1]})
+                extra = set(cur["changed"] or []) - {"contract_info", "config"}
+                if extra:
+                    out.append({"step": s.idx, "what": "%s rewrote records %r" % (t[1], sorted(extra))})
+        else:
+            if cur["changed"]:
+                out.append({"step": s.idx, "what": "a refused migration changed records %r" % cur["changed"]})
+        if s.res == "ok" and not (s.op and False):
+            pass
+        # successful kept migrations move the baseline; rolled-back ones (between tx_begin_m/tx_abort_m) do not: the
+        # generator keeps only the last two `mig` of a history
+    # note: baseline `prev` stays the pre-upgrade store for every attempt of the history
+    return out
+
+
+MONITORS = {"C04": mon_c04, "C15": mon_c15, "C03": mon_c03, "C08": mon_c08, "C10": mon_c10, "C11": mon_c11, "C12": mon_c12, "C05": mon_c05, "C06": mon_c06, "C17": mon_c17, "C13": mon_c13, "C14": mon_c14, "C09": mon_c09, "C07": mon_c07, "C18": mon_c18}
